@@ -28,6 +28,11 @@ def nrc_of(node: ast.AST, env: dict[str, str]) -> str | None:
 
 
 def decision_table(fn, m=None) -> list[tuple[frozenset, str]]:
+    # named conditions (`suppress_requested = isinstance(...) and ...; if suppress_requested:`) are resolved first
+    from sa.util import subst_locals as _sld
+    import copy as _cpd
+    fn = _cpd.copy(fn)
+    fn.node = ast.fix_missing_locations(_sld(fn.node, fn.node, conditions=True))
     g = CFG(fn.node)
     if m is not None:
         import copy
@@ -322,7 +327,43 @@ def run(m: Model, r: Report, tier: str) -> None:
     fs = m.require_function(f"{SRV}.UDSServer.default_response_if_suppress")
     ts = decision_table(fs)
     cond = "isinstance(response, service.NegativeResponse) or not isinstance(request, service.SubFunctionRequest) or (not request.suppress_response)"
-    r.check(has_row(ts, [cond], [], "response") and has_row(ts, [], [cond], "None") and len(ts) == 2, "R4", f"{fs.qualname}#table",
+    # compared as a function of its three atoms (negative response / sub-function request / suppress bit), whatever the row structure is
+    import itertools as _it13
+    A_NEG, A_SUB, A_SUP = "isinstance(response, service.NegativeResponse)", "isinstance(request, service.SubFunctionRequest)", "request.suppress_response"
+    ok_fn, unknown_lit = True, []
+    for neg_, sub_, sup_ in _it13.product((False, True), repeat=3):
+        val = {A_NEG: neg_, A_SUB: sub_, A_SUP: sup_}
+        outs_ = set()
+        for conds_, out_, _full in ts:
+            holds = True
+            for t_, pol_ in conds_:
+                if " or " in t_ and t_ not in val:
+                    # a disjunctive clause of the normal form: "a or not (b) or c"
+                    parts_ = [p_.strip() for p_ in t_.split(" or ")]
+                    lit_vals = []
+                    for p_ in parts_:
+                        neg_lit = p_.startswith("not (") and p_.endswith(")")
+                        atom_ = p_[5:-1] if neg_lit else p_
+                        if atom_ not in val:
+                            unknown_lit.append(atom_)
+                            lit_vals.append(False)
+                        else:
+                            lit_vals.append(val[atom_] != neg_lit)
+                    truth = any(lit_vals)
+                elif t_ in val:
+                    truth = val[t_]
+                else:
+                    unknown_lit.append(t_)
+                    truth = False
+                if truth != pol_:
+                    holds = False
+                    break
+            if holds:
+                outs_.add(out_)
+        want_ = "None" if (not neg_ and sub_ and sup_) else "response"
+        if outs_ != {want_}:
+            ok_fn = False
+    r.check3(None if unknown_lit else ok_fn, "R4", f"{fs.qualname}#table",
             f"suppression table {[(sorted(c), o) for c, o, _ in ts]}; a response is dropped iff it is positive and the request is a sub-function request with the suppress bit", loc=fs.loc)
     resp = m.require_function(f"{SRV}.UDSServer.respond")
     g = CFG(resp.node)
